@@ -293,9 +293,66 @@ def measure_blocks(draw, tier, small=False):
 
 
 @st.composite
+def qubit_blocks(draw, tier):
+    """ Distinguishable qubits, then logical swaps, qubits prepared in the
+    middle of the circuit (to the left of, between and to the right of the
+    swapped ones), post-selected blocks and a few gates, all measured at the
+    end: exercises the qubit-register bookkeeping of the exporter. """
+    n = draw(st.integers(2, 3))
+    scan, layers = [], []
+
+    def add(b, off):
+        layers.append([b, off])
+        scan[off:off + len(specs.bdom(b))] = specs.bcod(b)
+
+    add({"k": "g", "g": "Ket", "a": [0] * n}, 0)
+    angles = draw(st.permutations([1, 2, 3, 5, 6, 7]))
+    for i in range(n):
+        if draw(st.integers(0, 3)):
+            add({"k": "g", "g": "Rx", "a": [angles[i] / 8]}, i)
+        else:
+            add({"k": "g", "g": "X"}, i)
+    for step in range(draw(st.integers(2, 5))):
+        opts = ["gate"]
+        if len(scan) >= 2:
+            opts += ["qswap", "qswap", "cx"]
+        if len(scan) < 5:
+            opts += ["ket", "ket"]
+        if len(scan) >= 2:
+            opts += ["bra"]
+        kind = draw(st.sampled_from(opts))
+        if kind == "qswap":
+            off = draw(st.integers(0, len(scan) - 2))
+            add({"k": "swap", "l": scan[off], "r": scan[off + 1]}, off)
+        elif kind == "cx":
+            add({"k": "g", "g": "CX"}, draw(st.integers(0, len(scan) - 2)))
+        elif kind == "ket":
+            k = draw(st.integers(1, min(2, 5 - len(scan))))
+            off = draw(st.integers(0, len(scan)))
+            add({"k": "g", "g": "Ket", "a": [draw(st.integers(0, 1))
+                                             for _ in range(k)]}, off)
+            if draw(st.booleans()):
+                add({"k": "g", "g": "Rx", "a": [angles[3 + step % 3] / 8]},
+                    off)
+        elif kind == "bra":
+            off = draw(st.integers(0, len(scan) - 1))
+            k = 1 + (off + 1 < len(scan) - 1 and draw(st.booleans()))
+            add({"k": "g", "g": "Bra", "a": [draw(st.integers(0, 1))
+                                             for _ in range(k)]}, off)
+        else:
+            add({"k": "g", "g": draw(st.sampled_from(["X", "H"]))},
+                draw(st.integers(0, len(scan) - 1)))
+        if not scan:
+            break
+    if scan and draw(st.integers(0, 3)):
+        add({"k": "g", "g": "Measure", "a": [len(scan), True, False]}, 0)
+    return {"cls": "circuit", "dom": [], "layers": layers}
+
+
+@st.composite
 def export_cases(draw, tier):
     spec = draw(st.one_of(export_circuits(tier), phased_circuits(tier),
-                          measure_blocks(tier)))
+                          measure_blocks(tier), qubit_blocks(tier)))
     # exclusion by construction: truncate before the first trigger
     while spec["layers"] and excluded(spec):
         spec = dict(spec, layers=spec["layers"][:-1])
@@ -307,7 +364,8 @@ def register_cases(draw, tier):
     """ Only the generator that stresses the classical-register bookkeeping
     (block measurements, post-selections, bit preparations, swaps, discards,
     overriding re-measurements). """
-    spec = draw(measure_blocks(tier))
+    spec = draw(st.one_of(measure_blocks(tier), measure_blocks(tier),
+                          qubit_blocks(tier)))
     while spec["layers"] and excluded(spec):
         spec = dict(spec, layers=spec["layers"][:-1])
     return {"d": spec}
@@ -562,10 +620,12 @@ def selftest():
 core.register("C13", [
     Facet("export", export_cases, check_export, n_quick=640, shards_quick=8,
           rule=RULE),
-    Facet("export_registers", register_cases, check_export, n_quick=800,
-          shards_quick=8, rule="as export, with the generator that measures "
-          "in blocks, post-selects, prepares, swaps, discards and overrides "
-          "bits (classical-register bookkeeping of the exporter)"),
+    Facet("export_registers", register_cases, check_export, n_quick=1200,
+          shards_quick=8, rule="as export, with the generators that measure "
+          "in blocks, post-select, prepare, swap, discard and override bits "
+          "(classical-register bookkeeping of the exporter) or swap qubits, "
+          "prepare qubits mid-circuit on either side of them and post-select "
+          "blocks (qubit-register bookkeeping)"),
     Facet("roundtrip", roundtrip_cases, check_roundtrip, n_quick=300,
           shards_quick=4, rule="from_tk(to_tk(c)) is well-typed and has "
           "c's mixed evaluation"),
